@@ -9,12 +9,15 @@ from vx.verus import run_verus
 
 
 class Failure:
-    def __init__(self, cls, name, message, where, rendered, clause=None):
+    def __init__(self, cls, name, message, where, rendered, clause=None, strength="hard"):
         self.cls = cls  # contract | hint | canary | spec
         self.name, self.message, self.where, self.rendered, self.clause = name, message, where, rendered, clause
+        # hard: postcondition / callee precondition / safety / termination / table lemma / Kani FAILED
+        # soft: loop invariant (a proof-internal statement that a harmless reordering can falsify)
+        self.strength = strength
 
     def to_json(self):
-        return {"class": self.cls, "obligation": self.name, "message": self.message, "where": self.where, "verifier_output": self.rendered}
+        return {"class": self.cls, "strength": self.strength, "obligation": self.name, "message": self.message, "where": self.where, "verifier_output": self.rendered}
 
 
 class StageResult:
@@ -196,7 +199,45 @@ def name_failure(unit_name, dg, org, owner):
         if po and po[0] == "clause" and po[2] in ("hint", "ghost"):
             cls = "hint"
             clause = po[1]
-    return Failure(cls, name, dg.message, where, dg.rendered, clause)
+    strength = "soft" if kind in ("invariant-preserved", "invariant-established", "invariant") else "hard"
+    return Failure(cls, name, dg.message, where, dg.rendered, clause, strength)
+
+
+def skeleton(u, repo):
+    """does the extracted code still have the shape the sidecar was written for?  Functions that are extracted without
+    a contract, or defined in the same repository file and called from extracted code without being extracted, are
+    helpers the modular proof knows nothing about - a failed obligation may then be a missing contract, not a defect."""
+    contracted = set()
+    extracted = set()
+    called = set()
+    for it in u.items:
+        text = it.buf.text
+        mask = code_mask(text)
+        for m in re.finditer(r"\bfn\s+(\w+)", text):
+            if mask[m.start()]:
+                extracted.add(m.group(1))
+        for c in it.clauses:
+            if c["kind"] == "contract":
+                contracted.add(c["fn"])
+        for m in re.finditer(r"(?:\.|::|\b)(\w+)\s*\(", text):
+            if mask[m.start()]:
+                called.add(m.group(1))
+    defined = set()
+    for rel in sorted(set(it.relpath for it in u.items)):
+        try:
+            src = open(os.path.join(repo, rel)).read()
+        except OSError:
+            continue
+        cut = src.find("#[cfg(test)]")
+        src = src if cut < 0 else src[:cut]
+        mk = code_mask(src)
+        for m in re.finditer(r"\bfn\s+(\w+)", src):
+            if mk[m.start()]:
+                defined.add(m.group(1))
+    uncontracted = sorted(f for f in extracted if f not in contracted and f in called and f != "main")
+    missing = sorted(f for f in defined if f in called and f not in extracted and f not in ("new", "from", "fmt", "eq", "hash", "clone", "map", "source", "len", "next", "into", "push"))
+    lost = [h["id"] for it in u.items for h in it.hints_lost]
+    return {"intact": not uncontracted and not missing and not lost, "uncontracted_helpers": uncontracted, "unextracted_helpers_called": missing, "hint_anchors_lost": lost}
 
 
 def run_unit(unit_mod, prop, repo, verif, workdir, tier, log):
@@ -212,6 +253,7 @@ def run_unit(unit_mod, prop, repo, verif, workdir, tier, log):
         st.wall_s = time.time() - t0
         return st
     rlimit = getattr(mod, "RLIMIT", 60)
+    st.details["skeleton"] = skeleton(u, repo)
     lost = [h for it in u.items for h in it.hints_lost if (h.get("tags") is None or prop in h["tags"])]
     degraded = bool(lost)
     disabled = set()
